@@ -307,6 +307,36 @@ def rule_injective(program, ctx, prop=P, rid="C10.injective"):
                                      "(the supersede scan of WriterThread._post_save treats every hit as an older version by the same author)", text=f"def convert(...) :: {ci.node.name}"))
 
 
+def rule_render(program, ctx, prop=P, rid="C10.render"):
+    ctx.rule(
+        rid,
+        "the key under which a tag is indexed must be derivable again from the stored record: TagIndex.convert renders the value with str(), which is the identity on "
+        "strings but spells a JSON array as \"['a']\" for the list the wire event carries and \"('a',)\" for the tuple get_event_data returns (unpackb(..., use_list=False)) - "
+        "the entry written on add is not the entry cleared on delete. Sound only if the value is known to be a str, the rendering is container-type independent "
+        "(json), or records are read back as lists",
+        floor=1,
+    )
+    cv = program.func("nostr_relay.storage.kv:TagIndex.convert")
+    ge = program.func("nostr_relay.storage.kv:get_event_data")
+    tuples_on_read = any(isinstance(c, ast.Call) and call_name(c).split(".")[-1] == "unpackb" and any(k.arg == "use_list" and isinstance(k.value, ast.Constant) and k.value.value is False for k in c.keywords)
+                         for c in ast.walk(ge))
+    from ..lib import guard_atoms
+    n = 0
+    for c in ast.walk(cv):
+        if isinstance(c, ast.Call) and isinstance(c.func, ast.Name) and c.func.id == "str" and c.args and isinstance(c.args[0], ast.Subscript):
+            n += 1
+            v = ast.unparse(c.args[0])
+            typed = any(pol and isinstance(e, ast.Call) and call_name(e) == "isinstance" and ast.unparse(e.args[0]) == v and "str" in ast.unparse(e.args[1]) for e, pol in guard_atoms(c, stop=cv))
+            if tuples_on_read and not typed:
+                ctx.bad(finding_at(prop, rid, c, f"`{ast.unparse(c)}` renders a nested array by its Python container type: the wire event has a list, the stored record (use_list=False) a tuple - "
+                                   "the index entry of a tag whose value is a JSON array is written under one key and cleared under another; it dangles after deletion / replacement",
+                                   text="str() of a tag value that may be an array"))
+            else:
+                ctx.ok(rid, c, f"{ast.unparse(c)}: same rendering on add and on delete")
+    if not n:
+        ctx.ok(rid, cv, "no str() rendering of tag values")
+
+
 def run(program, ctx):
     from ..lib import rule_awaited
 
@@ -317,6 +347,7 @@ def run(program, ctx):
     rule_callers(program, ctx)
     rule_keyspace(program, ctx)
     rule_injective(program, ctx)
+    rule_render(program, ctx)
     c07.rule_ctxmgr(program, ctx, prop=P, rid="C10.ctxmgr")
     from . import c01
 
